@@ -273,12 +273,14 @@ class FsStore(Store):
     optional DictLoader fallback (ChoiceLoader[FileSystemLoader, DictLoader])."""
 
     def __init__(self, n_paths: int = 1, ext: str | None = None, with_dict: bool = False,
-                 parked: bool = False, fs: simfs.SimFS | None = None) -> None:
+                 parked: bool = False, fs: simfs.SimFS | None = None, encoding: str = "utf-8") -> None:
         super().__init__()
         self.kind = "fs" + (str(n_paths) if n_paths > 1 else "") + ("x" if ext else "") + (
             "+d" if with_dict else "")
         self.fs = fs or simfs.SimFS()
         self.fs.rlog = self.rlog
+        self.encoding = encoding
+        self.fs.encoding = encoding
         self.roots = [f"{simfs.ROOT}/p{i}" for i in range(n_paths)]
         for r in self.roots:
             self.fs.mkdir(r)
@@ -337,7 +339,7 @@ class FsStore(Store):
 
     def clone(self) -> "FsStore":
         c = FsStore(len(self.roots), self.ext, self.dict is not None, self.parked,
-                    fs=self.fs.clone())
+                    fs=self.fs.clone(), encoding=self.encoding)
         if self.dict is not None:
             dict.update(c.dict, self.dict)
         c.set_unavailable(self.rlog.unavailable)
@@ -347,10 +349,10 @@ class FsStore(Store):
         sp = self.roots if len(self.roots) > 1 else self.roots[0]
         if self.dict is None:
             if caching:
-                return CachingFileSystemLoader(sp, ext=self.ext, **kw)
-            return FileSystemLoader(sp, ext=self.ext)
+                return CachingFileSystemLoader(sp, encoding=self.encoding, ext=self.ext, **kw)
+            return FileSystemLoader(sp, encoding=self.encoding, ext=self.ext)
         dcls = ParkedDictLoader if self.parked else DictLoader
-        children = [FileSystemLoader(sp, ext=self.ext), dcls(self.dict)]
+        children = [FileSystemLoader(sp, encoding=self.encoding, ext=self.ext), dcls(self.dict)]
         return CachingChoiceLoader(children, **kw) if caching else ChoiceLoader(children)
 
 
